@@ -356,10 +356,18 @@ def shards(tier: str) -> List[Dict[str, Any]]:
     for what, n, k in plan:
         for i in range(k if q else 2 * k):
             out.append({'name': '%s-%d' % (what, i), 'what': what, 'examples': n if q else n * 12})
+    if tier != 'quick':
+        for t_ in ('decoder_diff', 'rebuild_req', 'rebuild_resp', 'update_body'):
+            out.append({'name': 'atheris-' + t_, 'kind': 'atheris', 'what': t_, 'target': t_, 'runs': 150000, 'examples': 0, 'pair_limit': 0})
     return out
 
 
 def run_shard(spec: Dict[str, Any], seed: int, acc: Any) -> None:
+    if spec.get('kind') == 'atheris':
+        import sys
+        from vf.fuzz import run as fuzz_run
+        fuzz_run.campaign(sys.modules[__name__], spec['target'], acc, runs=spec['runs'], seed=seed)
+        return
     chunk_ref.selftest()
     what = spec['what']
     strat = {'build_req': build_req_cases(), 'build_resp': build_resp_cases(), 'rebuild_req': rebuild_cases('req'),
@@ -376,3 +384,9 @@ def run_shard(spec: Dict[str, Any], seed: int, acc: Any) -> None:
         acc.size('max_body', len(body or b''))
         return CHECKS[c['what']](c)
     hyp.drive(strat, chk, acc, max_examples=spec['examples'], seed=seed)
+
+
+def fuzz_targets() -> Dict[str, Any]:
+    """Coverage-guided campaigns of the thorough tier (atheris drives these strategies through fuzz_one_input)."""
+    return {'decoder_diff': (decoder_cases(), check_decoder_diff), 'rebuild_req': (rebuild_cases('req'), check_rebuild),
+            'rebuild_resp': (rebuild_cases('resp'), check_rebuild), 'update_body': (update_cases(), check_update_body)}
